@@ -192,7 +192,7 @@ pub fn gen_evidence(r: &mut Rng) -> EvidenceSet {
             7 => Ev::DynArray { element: other(r) },
             8 => Ev::FixedArray {
                 element: other(r),
-                length:  *r.pick(&[3u64, 5, 5, evidence::WIDE_LENGTH]),
+                length:  *r.pick(&[3u64, 5, 5, 0, 1, evidence::WIDE_LENGTH]),
             },
             9 => {
                 if r.chance(1, 2) {
